@@ -55,8 +55,11 @@ fn families(rng: &mut impl Rng, n: usize, thorough: bool) -> Vec<(Vec<i64>, Vec<
     out.push((e.clone(), e.clone(), "unit"));
     out.push((vec![0i64; n], dense(rng, 5, n), "zero"));
     if thorough {
-        for _ in 0..4 {
+        for _ in 0..12 {
             out.push((dense(rng, 200, n), dense(rng, 200, n), "signing-range"));
+        }
+        for _ in 0..8 {
+            out.push((dense(rng, amax, n), dense(rng, bmax_dense, n), "dense"));
         }
     }
     out
